@@ -436,7 +436,7 @@ class World:
         kinds = ["rwa_query", "bad_set_rwa", "edit_bath", "direct_tensor", "direct_edit",
                  "tensor", "tensor", "make_rdm", "make_rdm", "propagate_rdm", "propagate_rdm", "propagate_rdm", "set_ref", "rates",
                  "thermal", "propagate_sv", "propagate_pop", "pop_matrix", "make_heom", "propagate_heom", "propagate_heom", "eso",
-                 "propagate_rdm", "set_ref"]
+                 "propagate_rdm", "set_ref", "propagate_sv", "propagate_sv", "propagate_pop"]
         if rng.random() < 0.5:
             kinds = [k for k in kinds if k not in rng.sample(["propagate_sv", "propagate_pop", "pop_matrix", "make_heom", "eso", "rates", "thermal"], 3)]
         # most histories start with the usual pipeline (tensor -> propagator -> propagation), so that later ops find objects to reuse
@@ -486,8 +486,8 @@ class World:
                 op["cortime"] = round(rng.uniform(40, 120), 1)
             elif k in ("propagate_sv", "propagate_pop", "pop_matrix"):
                 op["state"] = {"kind": "site", "k": rng.randrange(4)}
-                op["nt"] = rng.choice([20, 50])
-                op["new"] = rng.random() < 0.3
+                op["nt"] = rng.choice([20, 20, 50])
+                op["new"] = rng.random() < 0.2
                 op["corr"] = rng.choice([-1, -1, 0, 1, 2])
                 op["m"] = rng.choice([1, 2, 5])
             elif k == "make_heom":
